@@ -4,10 +4,10 @@ CFG = {
     "level": "proof",
     "streams": [
         {"mod": "extras", "component": "portunion", "driver": "portunion",
-         "n": {"quick": 6000, "thorough": 150000}},
+         "n": {"quick": 6000, "thorough": 40000}},
         {"kind": "gotest", "mod": "extras", "pkg": "./transport/udphop", "run": "^TestVerifC19Hop$",
-         "component": "hop", "driver": "hop", "reset_re": "^reset", "timeout": 3000,
-         "n": {"quick": 6000, "thorough": 300000}},
+         "component": "hop", "driver": "hop", "reset_re": "^reset", "timeout": 1500,
+         "n": {"quick": 6000, "thorough": 40000}},
     ],
     "race": True,
     "rule": "portunion: expression strings built from items n / a-b over boundary ports (0, 1, 65534, 65535, ...), a 40-port window "
@@ -26,7 +26,9 @@ CFG = {
         "Go channel and select semantics: buffered FIFO channel, select picks any ready case (the pick is an input of the model), "
         "a closed channel is always ready; sync.RWMutex regions are atomic steps",
         "net.PacketConn contract of the sockets returned by ListenUDPFunc: Close makes a blocked ReadFrom return a non-timeout error "
-        "(so the socket's recvLoop ends), operations on a closed socket fail",
+        "(so the socket's recvLoop ends), an OPEN socket's ReadFrom fails only with timeouts, operations on a closed socket fail",
+        "UDPHopAddr.addrs() pairs every port with the one resolved server IP (not modelled; the harness oracle checks the "
+        "destination IP of every WriteTo)",
         "the model Hy.Model.Hop is tied to extras/transport/udphop/conn.go by the synctest stream `hop` (real udpHopPacketConn, fake "
         "ListenUDPFunc, virtual clock) and by the constants packetQueueSize / udpBufferSize / defaultHopInterval regenerated from "
         "the compiled package",
